@@ -78,8 +78,20 @@ def run(ck):
                         model.fit(mk(X, xc, xdt), mk(y, yc, ydt, ysh), mk(Xv, xc, xdt), mk(yv, yc, ydt, ysh))
                     leaf_inputs = [(r.rec_train[0].numpy().tobytes(), r.rec_train[1].numpy().tobytes(), str(r.rec_train[1].dtype), tuple(r.rec_train[1].shape))
                                    for r in log if r.rec_is_leaf]
-                    pred = np.asarray(model.predict(mk(Q, xc, xdt)))
-                    proba = np.asarray(model.predict_proba(mk(Q, xc, xdt))) if task == 'class' else None
+                    if xc == 'array' and i % 2 == 1:
+                        # the caller streams batches through ONE preallocated array: other rows are predicted first, the buffer is refilled in place, then the rows
+                        # under test are predicted from the same array object (and once more for the probabilities)
+                        qbuf = np.ascontiguousarray(xr.make_X('random', len(Q), d, np.random.default_rng(i)).astype(xdt))
+                        model.predict(qbuf)
+                        if task == 'class':
+                            model.predict_proba(qbuf)
+                        qbuf[...] = Q.astype(xdt)
+                        pred = np.asarray(model.predict(qbuf))
+                        proba = np.asarray(model.predict_proba(qbuf)) if task == 'class' else None
+                        ck.count('queries streamed through one refilled array')
+                    else:
+                        pred = np.asarray(model.predict(mk(Q, xc, xdt)))
+                        proba = np.asarray(model.predict_proba(mk(Q, xc, xdt))) if task == 'class' else None
             except Exception as e:
                 ck.violation(f'representation {rep} is rejected ({e!r}) on {desc}', dict(desc, rep=rep, error=repr(e)), key=json.dumps(dict(site='rejected', y=ydt)))
                 continue
